@@ -397,3 +397,24 @@ def store_terms_block(draw):
             out += [("PUSH", 0x40)] + I("MLOAD", "DUP1") + [("PUSH", 0x20)] + I("ADD", "SWAP3", "SWAP1", store, "SWAP1", store)
     return out + draw(st.sampled_from([[], I("POP"), I("SWAP1")]))
 
+
+@st.composite
+def unused_hashes_block(draw):
+    """several KECCAK256 / loads whose results are dropped, between stores to the hashed ranges (the unused instructions are
+    removed from the specification and the dependences they carried are re-linked)"""
+    out = []
+    n = draw(st.integers(2, 4))
+    for i in range(n):
+        base = draw(st.sampled_from([0, 0x20, 0x40, 0x80]))
+        out += [("DUP%d" % draw(st.integers(1, 3)), None), ("PUSH", base), (draw(st.sampled_from(["MSTORE", "MSTORE", "MSTORE8"])), None)]
+        kind = draw(st.integers(0, 3))
+        if kind <= 1:
+            out += [("PUSH", draw(st.sampled_from([0x20, 0x40, 1]))), ("PUSH", base), ("KECCAK256", None), ("POP", None)]
+        elif kind == 2:
+            out += [("PUSH", base), ("MLOAD", None), ("POP", None)]
+        else:
+            out += [("PUSH", draw(st.sampled_from([0x20, 0x40]))), ("PUSH", base), ("KECCAK256", None)]      # a used one in between
+        if draw(st.booleans()):
+            out += [("DUP%d" % draw(st.integers(1, 3)), None), ("PUSH", base), ("MSTORE", None)]
+    return out
+
